@@ -3,6 +3,7 @@
 seeded/<id>/meta.json and seeded/MATRIX.md).  /repo is restored after every run."""
 import json, os, re, subprocess, sys
 ROOT = os.path.dirname(os.path.dirname(os.path.abspath(__file__)))
+REPO = os.environ.get("VERIF_REPO", "/repo")   # a snapshot when run through `vp run --with-repo`
 rows = []
 only = sys.argv[1] if len(sys.argv) > 1 else ""   # e.g. "efg": only the seeds with these letters (the table keeps the recorded verdicts of the others)
 for sid in sorted(os.listdir(os.path.join(ROOT, "seeded"))):
@@ -16,13 +17,13 @@ for sid in sorted(os.listdir(os.path.join(ROOT, "seeded"))):
         continue
     meta = json.load(open(os.path.join(d, "meta.json")))
     prop = meta["breaks_property"]
-    subprocess.run(["git", "-C", "/repo", "checkout", "--", "."], check=True)
-    ap = subprocess.run(["git", "-C", "/repo", "apply", os.path.join(d, "patch.diff")])
+    subprocess.run(["git", "-C", REPO, "checkout", "--", "."], check=True)
+    ap = subprocess.run(["git", "-C", REPO, "apply", os.path.join(d, "patch.diff")])
     if ap.returncode != 0:
         rows.append((sid, prop, "patch no longer applies", ""))
         continue
     p = subprocess.run([os.path.join(ROOT, "check"), prop], cwd=ROOT, capture_output=True, text=True, timeout=1800)
-    subprocess.run(["git", "-C", "/repo", "checkout", "--", "."], check=True)
+    subprocess.run(["git", "-C", REPO, "checkout", "--", "."], check=True)
     viol = [l for l in p.stdout.splitlines() if l.startswith("VIOLATION")]
     why = ""
     rp = os.path.join(ROOT, "out", prop, "replay-1.json")
